@@ -875,3 +875,44 @@ def coupon_identity(facts):
     if len(out) < 2:
         out.append(ob("hll.coupon-identity", "anchor", "", "unrecognised", "CouponList::couponUpdate / CouponHashSet find not both found", ""))
     return out
+
+
+def ooo_resets_hip(facts):
+    """An HLL array whose out-of-order flag is set carries no HIP estimate: the readers do not restore hipAccum_ for such an image
+    (`if (!oooFlag) putHipAccum(hip)`), while the writers always emit the field.  So every site that sets the flag to true must
+    zero the accumulator of the same object, otherwise the image of a union result contains a value its own round trip drops
+    (re-serialized bytes and printed state differ).  Sites that copy flag and accumulator together from another array are fine."""
+    fs = hll_fns(facts)
+    out = []
+    n = 0
+    for pat, fn in sorted(fs.items()):
+        calls = []
+        walk(fn["body"], lambda x: calls.append(x) if x.get("k") == "Call" and x.get("cname") in ("putOutOfOrderFlag", "putHipAccum") and x.get("obj") is not None else None)
+        sets = [c for c in calls if c["cname"] == "putOutOfOrderFlag" and c.get("args") and strip_all(c["args"][0]).get("k") == "Bool" and strip_all(c["args"][0]).get("b", strip_all(c["args"][0]).get("v"))]
+        for j, c in enumerate(sets):
+            n += 1
+
+            def root(e):
+                r = []
+                walk(e, lambda y: r.append(y) if y.get("k") == "Ref" else None)
+                return r[0]["d"] if r else None
+            o = root(c["obj"])
+            zero = [h for h in calls if h["cname"] == "putHipAccum" and root(h["obj"]) == o and h.get("args") and strip_all(h["args"][0]).get("v") == 0]
+            key = "%s:ooo-true#%d:hip-zeroed" % (short(fn["patq"]), j)
+            if zero:
+                out.append(ob("hll.ooo-hip", key, c["loc"], "discharged", "putOutOfOrderFlag(true) comes with putHipAccum(0) on the same array", fn["qname"]))
+            else:
+                out.append(ob("hll.ooo-hip", key, c["loc"], "violated", "putOutOfOrderFlag(true) on `%s` without putHipAccum(0): serialize() still writes the stale accumulator while both readers skip it when the flag is set - the restored sketch re-serializes to different bytes" % txt(c["obj"])[:40], fn["qname"]))
+    # readers: restore hip only when the flag is clear
+    for pat, fn in sorted(fs.items()):
+        if fn["name"] != "newHll" or not fn["params"] or not (fn["params"][0]["t"].startswith("const void") or "basic_istream" in fn["params"][0]["t"]):
+            continue
+        ok = []
+        walkp(fn["body"], lambda x, ps: ok.append([txt(p["c"]).replace(" ", "") for p in ps if p.get("k") == "If"]) if x.get("k") == "Call" and x.get("cname") == "putHipAccum" else None)
+        kind = "stream" if any("basic_istream" in p["t"] for p in fn["params"]) else "bytes"
+        good = bool(ok) and all("!oooFlag" in g for g in ok)
+        n += 1
+        out.append(ob("hll.ooo-hip", "HllArray::newHll(%s):hip-only-if-in-order" % kind, fn["pat"], "discharged" if good else "violated", "hip restored only when the out-of-order flag is clear" if good else "reader restores hipAccum under %s" % ok, fn["qname"]))
+    if n < 3:
+        out.append(ob("hll.ooo-hip", "anchor", "", "unrecognised", "only %d sites found" % n, ""))
+    return out
